@@ -159,6 +159,8 @@ def run(rep):
     rep.floor("R-C16-process", 12)
     rep.floor("R-C16-partial", 5)
     rep.clause("R-C16-process / R-C16-partial", "the allocating wrappers return exactly the frames the core call reports (the recipe skips and keeps frame counts of these streams): shared with C16")
+    import shares
+    shares.carry(rep, ASYNC, "the alignment model assumes the history offset cancels (shift length = load start = read base)")
     rep.floor("R-C14-model", 1 + 1 + 4 + 1 + 3)
     rep.floor("R-C14-siblings", 2)
     rep.clause("R-C14-model", "per type, output_delay() is consistent with where the stream starts: reported/ratio = −(initial read position + kernel centre offset) for the asynchronous types "
